@@ -12,12 +12,24 @@ import (
 )
 
 // c18Plain hides Transaction(), so keyvalue.TransactionOrSerial falls back to the serial transaction.
-type c18Plain struct{ s *store }
+type c18Plain struct {
+	s *store
+	// failKey: the store rejects Set / fails Get for this key (plain stores can fail; "" = never)
+	failSet, failGet string
+}
+
+var c18ErrStore = errors.New("store rejected the call")
 
 func (p *c18Plain) Get(ctx context.Context, path string) (keyvalue.FileRecord, error) {
+	if path == p.failGet {
+		return nil, c18ErrStore
+	}
 	return p.s.Get(ctx, path)
 }
 func (p *c18Plain) Set(ctx context.Context, path string, src keyvalue.FileRecord) error {
+	if path == p.failSet {
+		return c18ErrStore
+	}
 	return p.s.Set(ctx, path, src)
 }
 
@@ -28,6 +40,7 @@ type c18Rec struct {
 }
 
 var c18Keys = []string{"a", "b"}
+var c18FailSet, c18FailGet string
 var c18ErrHandler = errors.New("handler failed")
 
 type c18Expect struct {
@@ -35,6 +48,7 @@ type c18Expect struct {
 	key        int
 	afterAbort bool
 	handlerErr bool
+	storeErr   bool   // the store rejected / failed this call
 	want       c18Rec // for Get: the record the model holds at call time
 }
 
@@ -47,7 +61,7 @@ func c18Begin(s *store, serial bool) keyvalue.Transaction {
 	var txn keyvalue.Transaction
 	var err error
 	if serial {
-		txn, err = keyvalue.TransactionOrSerial(&c18Plain{s}, keyvalue.TransactionOptions{Mode: keyvalue.TransactionReadWrite})
+		txn, err = keyvalue.TransactionOrSerial(&c18Plain{s: s, failSet: c18FailSet, failGet: c18FailGet}, keyvalue.TransactionOptions{Mode: keyvalue.TransactionReadWrite})
 	} else {
 		txn, err = keyvalue.TransactionOrSerial(s, keyvalue.TransactionOptions{Mode: keyvalue.TransactionReadWrite})
 	}
@@ -88,7 +102,22 @@ func VerifC18Seq() {
 		model[0] = c18Rec{true, m0, b0}
 	}
 
+	c18FailSet, c18FailGet = "", ""
+	storeFault := 0
+	if serial {
+		// a plain store may reject a call: the rejection is that operation's error, whatever the handler returns
+		storeFault = verifChoice("store-fault", 3)
+		switch storeFault {
+		case 1:
+			c18FailSet = "a"
+			verifTag("store-fault", "Set(a) rejected")
+		case 2:
+			c18FailGet = "a"
+			verifTag("store-fault", "Get(a) fails")
+		}
+	}
 	txn := c18Begin(s, serial)
+	c18FailSet, c18FailGet = "", ""
 	var expect []c18Expect
 	aborted := false
 	nested, anyNested := false, false
@@ -121,13 +150,13 @@ func VerifC18Seq() {
 		switch verifChoice(id+".op", 5) {
 		case 0:
 			op = txn.Get(c18Keys[k])
-			expect = append(expect, c18Expect{isGet: true, key: k, afterAbort: aborted, want: model[k]})
+			expect = append(expect, c18Expect{isGet: true, key: k, afterAbort: aborted, want: model[k], storeErr: storeFault == 2 && k == 0})
 		case 1:
 			h, herr, habort := handlerFor(id)
 			isNested := nested
 			nested = false
 			op = txn.GetHandler(c18Keys[k], h)
-			expect = append(expect, c18Expect{isGet: true, key: k, afterAbort: aborted, handlerErr: herr, want: model[k]})
+			expect = append(expect, c18Expect{isGet: true, key: k, afterAbort: aborted, handlerErr: herr, want: model[k], storeErr: storeFault == 2 && k == 0})
 			if isNested {
 				verifAssert(int64(op) == int64(len(expect)-1), "operation ids must count the calls in order")
 				if nestedOp >= 0 { // the handler ran (it does not for a call made after Abort)
@@ -152,8 +181,9 @@ func VerifC18Seq() {
 				next = c18Rec{true, m, b}
 			}
 			op = txn.Set(c18Keys[k], rec, data)
-			expect = append(expect, c18Expect{key: k, afterAbort: aborted})
-			if !aborted {
+			rejected := storeFault == 1 && k == 0
+			expect = append(expect, c18Expect{key: k, afterAbort: aborted, storeErr: rejected})
+			if !aborted && !rejected {
 				model[k] = next
 			}
 		case 3:
@@ -162,8 +192,9 @@ func VerifC18Seq() {
 			isNested := nested
 			nested = false
 			op = txn.SetHandler(c18Keys[k], c18Record(m, b), blob.NewBytes([]byte{b}), h)
-			expect = append(expect, c18Expect{key: k, afterAbort: aborted, handlerErr: herr})
-			if !aborted {
+			rejected := storeFault == 1 && k == 0
+			expect = append(expect, c18Expect{key: k, afterAbort: aborted, handlerErr: herr, storeErr: rejected})
+			if !aborted && !rejected {
 				model[k] = c18Rec{true, m, b}
 			}
 			if isNested {
@@ -231,6 +262,8 @@ func VerifC18Seq() {
 			switch {
 			case ex.afterAbort:
 				verifAssert(res.Err != nil, "a call made after Abort must report an error")
+			case ex.storeErr:
+				verifAssert(res.Err != nil && errors.Is(res.Err, c18ErrStore), "a call the store rejected must report the store's error, whatever its handler returns")
 			case ex.handlerErr && (!ex.isGet || ex.want.present):
 				verifAssert(res.Err == c18ErrHandler, "a handler error must become the operation's error")
 			case ex.isGet:
